@@ -191,6 +191,7 @@ type CrashCase struct {
 	Obj    *eng.GoObjSpec `json:"obj,omitempty"`
 	Odd    string         `json:"odd,omitempty"`
 	Wear   *WearSpec      `json:"wear,omitempty"`
+	Debug  bool           `json:"debug,omitempty"` // the host sets the DEBUG variable before Prepare
 	Msg    string         `json:"message,omitempty"`
 }
 
@@ -315,6 +316,9 @@ func runCrashCase(part string, c *CrashCase) (outcome string, err error) {
 	defer cancel()
 	r := eng.NewRunner(script)
 	r.E.SetContext(ctx)
+	if c.Debug {
+		r.E.SetVariable("DEBUG", &object.Boolean{Value: true})
+	}
 	var perr error
 	call("Prepare", func() { perr = r.E.Prepare() })
 	if err != nil {
@@ -599,6 +603,17 @@ func TestC08Random(t *testing.T) {
 			c.Script = lang.ProgramText(pr.P)
 			if rapid.Bool().Draw(rt, "mutateprog") {
 				c.Script = mutate(rt, c.Script)
+			}
+		}
+		// the execution trace: switched on by the host, or by the script itself
+		switch gen.Uniform(rt, "debug", 12) {
+		case 0:
+			c.Debug = true
+			col.Class("debug-trace:host")
+		case 1:
+			if !c.Hex {
+				c.Script = "DEBUG = true;\n" + c.Script
+				col.Class("debug-trace:script")
 			}
 		}
 		if kind == "object" || gen.Uniform(rt, "oddobj", 4) == 0 {
